@@ -747,14 +747,49 @@ def to_str(ex, st, v):
     raise ToolLimit('str() of %s' % type(v).__name__)
 
 
+def _format_pieces(tmpl):
+    """literal template -> list of pieces: plain text (escapes {{ }} resolved) or '{field}' placeholders, via string.Formatter (the reference parser)"""
+    import string as _string
+    out = []
+    for lit, field, spec, conv in _string.Formatter().parse(tmpl):
+        if lit: out.append(('text', lit))
+        if field is not None:
+            out.append(('field', '{' + field + ('!' + conv if conv else '') + (':' + spec if spec else '') + '}'))
+    return out
+
+
 def str_format(ex, st, node, recv, args, kwargs):
     import re as _re
-    if not z3.is_string_value(recv.term): raise ToolLimit('format on symbolic template')
-    tmpl = recv.term.as_string()
-    parts = _re.split(r'(\{[^{}]*\})', tmpl)
+    if not z3.is_string_value(recv.term):
+        # a template that is itself computed: its literal parts are parsed as usual; a SYMBOLIC part is text chosen elsewhere (possibly by the
+        # outside world) -- if it contains a brace, str.format raises KeyError / IndexError / ValueError / AttributeError depending on what is between them
+        t = recv.term
+        kids = t.children() if (z3.is_app(t) and t.decl().kind() == z3.Z3_OP_SEQ_CONCAT) else [t]
+        sym = [k for k in kids if not z3.is_string_value(k)]
+        braces = z3.Or([z3.Or(contains_(k, z3.StringVal('{')), contains_(k, z3.StringVal('}'))) for k in sym]) if sym else z3.BoolVal(False)
+        for exc in ('KeyError', 'IndexError', 'ValueError', 'AttributeError'):
+            ex.may_raise(st, exc, node, braces, z3.Not(braces), 'format() of a template with an uncontrolled brace')
+        # brace-free symbolic parts are copied; runs of literal parts are formatted on their own (auto-numbering continues across them)
+        merged = []
+        for k in kids:
+            if z3.is_string_value(k) and merged and isinstance(merged[-1], str): merged[-1] += zstr(k)
+            elif z3.is_string_value(k): merged.append(zstr(k))
+            else: merged.append(k)
+        out = []; used = 0
+        for k in merged:
+            if isinstance(k, str):
+                sub = str_format(ex, st, node, VStr(z3.StringVal(k)), args[used:], kwargs)
+                used += sum(1 for kind, p_ in _format_pieces(k) if kind == 'field' and _re.fullmatch(r'\{([:!].*)?\}', p_))
+                out.append(sub.term)
+            else:
+                out.append(k)
+        return VStr(z3.Concat(*out) if len(out) > 1 else out[0])
+    tmpl = zstr(recv.term)
+    parts = [p_ for kind, p_ in _format_pieces(tmpl)]
+    kinds = [kind for kind, p_ in _format_pieces(tmpl)]
     out = []; auto = 0
-    for p in parts:
-        if p.startswith('{') and p.endswith('}'):
+    for kind_, p in zip(kinds, parts):
+        if kind_ == 'field':
             key = p[1:-1]
             spec = None
             if '!' in key: raise ToolLimit('format conversion %s' % p)
@@ -786,7 +821,7 @@ def str_format(ex, st, node, recv, args, kwargs):
             else:
                 raise ToolLimit('format spec %s' % p)
         elif p:
-            out.append(z3.StringVal(p.replace('{{', '{').replace('}}', '}')))
+            out.append(z3.StringVal(p))
     if not out: return VStr('')
     return VStr(z3.Concat(*out) if len(out) > 1 else out[0])
 
@@ -1231,6 +1266,10 @@ def module_constants(relpath, names=None):
     src = open(os.path.join(REPO, relpath), encoding='utf-8').read()
     tree = ast.parse(src)
     env = {'frozenset': frozenset, 'chr': chr, 'range': range, 'set': set, 'tuple': tuple, 'ord': ord, 'len': len, 'dict': dict, 'list': list, 'bytes': bytes, 'int': int}
+    # two library namespaces that constant definitions use: itertools.chain and the integer status codes of http.client
+    import itertools as _it, http.client as _hc, types as _ty
+    env['itertools'] = _ty.SimpleNamespace(chain=_it.chain)
+    env['http'] = _ty.SimpleNamespace(client=_ty.SimpleNamespace(**{k: int(v) for k, v in vars(_hc).items() if k.isupper() and isinstance(v, int)}))
     out = {}
     for n in tree.body:
         if isinstance(n, ast.Assign) and len(n.targets) == 1 and isinstance(n.targets[0], ast.Name):
@@ -1238,7 +1277,7 @@ def module_constants(relpath, names=None):
             if names is not None and nm not in names: continue
             try:
                 allowed = all(isinstance(x, (ast.Constant, ast.Name, ast.Call, ast.BinOp, ast.BitOr, ast.BitAnd, ast.Sub, ast.Add, ast.Dict, ast.Tuple, ast.List, ast.Set,
-                                             ast.Load, ast.GeneratorExp, ast.comprehension, ast.Store, ast.Mult)) for x in ast.walk(n.value))
+                                             ast.Load, ast.GeneratorExp, ast.comprehension, ast.Store, ast.Mult, ast.Attribute)) for x in ast.walk(n.value))
                 if not allowed: continue
                 val = eval(compile(ast.Expression(n.value), relpath, 'eval'), dict(env, __builtins__={}, **out))
                 out[nm] = val
